@@ -1,6 +1,10 @@
 package symx
 
-import "golang.org/x/tools/go/ssa"
+import (
+	"go/token"
+
+	"golang.org/x/tools/go/ssa"
+)
 
 // InstallSyncStubs makes sync.Mutex / sync.Once / sync/atomic sequential
 // no-ops or plain memory operations (the interpreter runs one thread).
@@ -17,6 +21,25 @@ func InstallSyncStubs(e *Engine) {
 	for _, t := range []string{"Uint32", "Int32", "Uint64", "Int64", "Pointer", "Uintptr"} {
 		e.Intercepts["sync/atomic.Load"+t] = load
 		e.Intercepts["sync/atomic.Store"+t] = store
+	}
+	add := func(ps *PathState, fr *frame, fn *ssa.Function, args []value) value {
+		p := args[0].(*value)
+		*p = symBinop(token.ADD, nil, *p, args[1])
+		return *p
+	}
+	for _, t := range []string{"Uint32", "Int32", "Uint64", "Int64", "Uintptr"} {
+		e.Intercepts["sync/atomic.Add"+t] = add
+	}
+	cas := func(ps *PathState, fr *frame, fn *ssa.Function, args []value) value {
+		p := args[0].(*value)
+		if equalsSafe(nil, *p, args[1]) {
+			*p = args[2]
+			return true
+		}
+		return false
+	}
+	for _, t := range []string{"Uint32", "Int32", "Uint64", "Int64", "Uintptr", "Pointer"} {
+		e.Intercepts["sync/atomic.CompareAndSwap"+t] = cas
 	}
 	e.Intercepts["internal/godebug.New"] = func(ps *PathState, fr *frame, fn *ssa.Function, args []value) value { return (*value)(nil) }
 	e.Intercepts["(*internal/godebug.Setting).Value"] = func(ps *PathState, fr *frame, fn *ssa.Function, args []value) value { return "" }
